@@ -105,6 +105,13 @@ def is_prefix(a, b):
     return list(b[: len(a)]) == list(a)
 
 
+def all_addressed(q, n):
+    """every line in the sequence q is a command for node n (spec.wire.addressed)"""
+    from spec import wire
+
+    return all(wire.addressed(x, n) for x in q)
+
+
 def is_str(x):
     return isinstance(x, str)
 
@@ -141,6 +148,7 @@ def install_vocabulary(it):
     it.models[id(env)] = ModelFn("env", lambda it2, a, k: it2.env[a[0]])
     it.models[id(is_prefix)] = ModelFn("is_prefix", lambda it2, a, k: ops.mk("bool", z3.PrefixOf(ops._seq_term(a[0]), ops._seq_term(a[1]))))
     it.models[id(same_item)] = ModelFn("same_item", m_same_item)
+    it.models[id(all_addressed)] = ModelFn("all_addressed", m_all_addressed)
     from .core import PYVAL
 
     def tagtest(tag, pyt):
@@ -173,6 +181,106 @@ def install_vocabulary(it):
     it.models[id(as_str)] = ModelFn("as_str", untag("sv", "str"))
     it.models[id(as_int)] = ModelFn("as_int", untag("iv", "int"))
     it.attr_models[("NS", "__any__")] = None
+
+
+def _expand_select(t):
+    """select(store(a, k, v), j) -> ite(k = j, v, select(a, j)), through nested selects and ite"""
+    if not z3.is_app(t) or t.decl().kind() != z3.Z3_OP_SELECT:
+        return t
+    arr, idx = _expand_select(t.arg(0)), t.arg(1)
+    if z3.is_app(arr):
+        kind = arr.decl().kind()
+        if kind == z3.Z3_OP_STORE:
+            a0, k0, v0 = arr.arg(0), arr.arg(1), arr.arg(2)
+            c = z3.simplify(k0 == idx)
+            if z3.is_true(c):
+                return _expand_select(v0) if z3.is_app(v0) else v0
+            rest = _expand_select(z3.Select(a0, idx))
+            if z3.is_false(c):
+                return rest
+            return z3.If(c, v0, rest)
+        if kind == z3.Z3_OP_ITE:
+            return z3.If(arr.arg(0), _expand_select(z3.Select(arr.arg(1), idx)), _expand_select(z3.Select(arr.arg(2), idx)))
+    return z3.Select(arr, idx)
+
+
+def m_all_addressed(it, a, k):
+    """all_addressed(q, n) over a symbolic sequence of lines: the term is taken apart as far as its structure
+    goes (empty -> true, a ++ [x] -> both, if-then-else -> per branch); what remains is the uninterpreted
+    predicate q_all_addr(t, n) with the facts  len(t) = 0 => q_all_addr(t, n)  and, for a non-empty t,
+    q_all_addr(t, n) => addressed(t[0], n) and q_all_addr(t[1:], n)  (what popleft needs)."""
+    from spec import wire
+
+    from .laws import lawbook, q_all_addr
+
+    q, n = ops.force(a[0]), ops.force(a[1])
+    if isinstance(q, (list, tuple)) or type(q).__name__ == "deque":
+        out = True
+        for x in q:
+            t = ops.truth(it, it.call(wire.addressed, [x, n], {}))
+            out = t if out is True else (out if t is True else z3.And(out, t))
+            if t is False:
+                return False
+        return out if isinstance(out, bool) else ops.mk("bool", out)
+    seq = _expand_select(ops._seq_term(q))
+    nt = lift(n)[1]
+    lb = lawbook(it.ctx)
+
+    def addr(x):
+        prev = it.formula_mode
+        it.formula_mode = True  # a formula, never a fork: this is also called while facts are being stated
+        try:
+            t = ops.truth(it, it.call(wire.addressed, [ops.mk("str", x), n], {}))
+        finally:
+            it.formula_mode = prev
+        return z3.BoolVal(t) if isinstance(t, bool) else t
+
+    def atom(t):
+        if lb._once("q_all_addr", t, nt):
+            it.ctx.add_fact(z3.Implies(z3.Length(t) == 0, q_all_addr(t, nt)))
+            # the pop-at-the-front fact is stated where a popleft on this very sequence happens (models.r_popleft)
+            atoms = it.ctx.__dict__.setdefault("_q_atoms", [])
+            atoms.append((t, nt, n))
+        return q_all_addr(t, nt)
+
+    def norm(t):
+        if z3.is_app(t):
+            kind = t.decl().kind()
+            if kind == z3.Z3_OP_SEQ_EMPTY:
+                return z3.BoolVal(True)
+            if kind == z3.Z3_OP_SEQ_UNIT:
+                return addr(t.arg(0))
+            if kind == z3.Z3_OP_SEQ_CONCAT:
+                return z3.And([norm(c) for c in t.children()])
+            if kind == z3.Z3_OP_ITE:
+                return z3.If(t.arg(0), norm(t.arg(1)), norm(t.arg(2)))
+        return atom(t)
+
+    return ops.mk("bool", z3.simplify(norm(seq)))
+
+
+def q_all_popleft(it, t):
+    """popleft on the sequence t: for every q_all_addr(t, n) stated so far, the head is addressed to n and the
+    rest is again all addressed to n"""
+    from spec import wire
+
+    from .laws import q_all_addr
+
+    te = _expand_select(t)
+    for t0, nt, n in list(it.ctx.__dict__.get("_q_atoms", [])):
+        if not (t0.eq(t) or t0.eq(te)):
+            continue
+        ln = z3.Length(t)
+        rest = z3.SubSeq(t, 1, ln - 1)
+        prev = it.formula_mode
+        it.formula_mode = True
+        try:
+            a = ops.truth(it, it.call(wire.addressed, [ops.mk("str", t[0]), n], {}))
+        finally:
+            it.formula_mode = prev
+        a = z3.BoolVal(a) if isinstance(a, bool) else a
+        it.ctx.add_fact(z3.Implies(z3.And(ln >= 1, q_all_addr(t0, nt)), z3.And(a, q_all_addr(rest, nt))))
+        it.ctx.add_fact(z3.Implies(z3.Length(rest) == 0, q_all_addr(rest, nt)))
 
 
 def m_implies(it, a, k):
